@@ -168,6 +168,7 @@ type Exec struct {
 	vnow     int64 // virtual nanoseconds since vbase
 	timers   []*vtimer
 	nchoose  int
+	frozen   bool // the virtual clock does not advance on its own
 	lastKey  H
 	haveLast bool
 }
